@@ -46,6 +46,28 @@ static long m_strtol10(const char *s, char **end)
     return neg ? (long)(0 - acc) : (long)acc;
 }
 
+/* glibc strtoul, base 10 only: a minus sign negates the (unsigned) result, overflow gives ULONG_MAX and ERANGE */
+static unsigned long m_strtoul10(const char *s, char **end)
+{
+    const char *p = s;
+    while (m_isspace((unsigned char)*p)) p++;
+    bool neg = false;
+    if (*p == '-') { neg = true; p++; }
+    else if (*p == '+') p++;
+    if (!m_isdigit((unsigned char)*p)) { if (end) *end = (char *)s; return 0; }
+    unsigned long acc = 0; bool ovf = false;
+    const unsigned long lim_q = ULONG_MAX / 10; const unsigned lim_r = (unsigned)(ULONG_MAX % 10);
+    while (m_isdigit((unsigned char)*p)) {
+	unsigned d = (unsigned)(*p - '0');
+	if (ovf || acc > lim_q || (acc == lim_q && d > lim_r)) ovf = true;
+	else acc = (acc << 3) + (acc << 1) + d;
+	p++;
+    }
+    if (end) *end = (char *)p;
+    if (ovf) { errno = ERANGE; return ULONG_MAX; }
+    return neg ? 0 - acc : acc;
+}
+
 /* glibc inet_pton(AF_INET): exactly four decimal octets 0..255, no leading zero, 1-3 digits */
 static int m_inet_pton4(const char *s, void *dst)
 {
@@ -130,10 +152,9 @@ static int m_vsnprintf(char *buf, size_t cap, const char *fmt, va_list ap)
 	case 'c': { int c = va_arg(ap, int); M_EMIT((char)c); break; }
 	case '%': M_EMIT('%'); break;
 	case 'd': case 'u': {
-	    long long v;
-	    if (fmt[i] == 'd') v = lng ? va_arg(ap, long) : va_arg(ap, int);
-	    else v = lng ? (long long)va_arg(ap, unsigned long) : (long long)va_arg(ap, unsigned);
-	    unsigned long long u = v < 0 ? 0ULL - (unsigned long long)v : (unsigned long long)v;
+	    long long v = 0; unsigned long long u;
+	    if (fmt[i] == 'd') { v = lng ? va_arg(ap, long) : va_arg(ap, int); u = v < 0 ? 0ULL - (unsigned long long)v : (unsigned long long)v; }
+	    else u = lng ? (unsigned long long)va_arg(ap, unsigned long) : (unsigned long long)va_arg(ap, unsigned);
 	    if (v < 0) M_EMIT('-');
 	    if (u < 100000) {
 		/* division-free digit extraction (64-bit dividers stall the SAT solver) */
@@ -146,14 +167,18 @@ static int m_vsnprintf(char *buf, size_t cap, const char *fmt, va_list ap)
 		}
 		break;
 	    }
-#ifdef VERIF_CBMC
-	    /* the general path needs 64-bit dividers, which stall the SAT solver: the model is bounded instead */
-	    __CPROVER_assert(0, "harness: libc model prints integers below 100000 only");
-#else
-	    char tmp[20]; int k = 0;
-	    do { tmp[k++] = (char)('0' + u % 10); u /= 10; } while (u && k < 20);
-	    while (k) { k--; M_EMIT(tmp[k]); }
-#endif
+	    {
+		/* all 64-bit values, still division-free: subtract powers of ten (20 x 9 conditional subtractions) */
+		static const unsigned long long pw64[20] = { 10000000000000000000ULL, 1000000000000000000ULL, 100000000000000000ULL, 10000000000000000ULL,
+		    1000000000000000ULL, 100000000000000ULL, 10000000000000ULL, 1000000000000ULL, 100000000000ULL, 10000000000ULL, 1000000000ULL,
+		    100000000ULL, 10000000ULL, 1000000ULL, 100000ULL, 10000ULL, 1000ULL, 100ULL, 10ULL, 1ULL };
+		bool started64 = false;
+		for (int q = 0; q < 20; q++) {
+		    unsigned dgt = 0;
+		    for (int t = 0; t < 9; t++) if (u >= pw64[q]) { u -= pw64[q]; dgt++; }
+		    if (dgt != 0 || started64 || q == 19) { M_EMIT((char)('0' + dgt)); started64 = true; }
+		}
+	    }
 	    break;
 	}
 	default: return -1;
